@@ -1,4 +1,4 @@
-LEVELS = {}
+LEVELS = {'C04': 'exploration'}
 NOT_DECIDED = {
     'C12': ['how often the main loop polls the timers (scheduling granularity) is not decided: clauses are stated "at the next call"'],
     'C09': ['route classification prefix of messages() and next-hop grouping of packed_reach_attributes: bounded only (segment contracts abstract them)', 'NLRI encoders by assumed contract here (their own contracts belong to C01/C15)'],
@@ -7,5 +7,6 @@ NOT_DECIDED = {
     'C08': ['RFC 7606 class per attribute type: uninterpreted in the deductive part, live class flags in the bounded part'],
     'C19': ['frame scan over all decode-reachable functions not built; Capability.klass kls.ID mutation open'],
     'C07': ['Capabilities objects abstract; ADD-PATH RequirePath.setup, OPEN encode/decode, Capabilities.new bounded only'],
+    'C04': ['bounded only: no deductive obligation on the RIB representation invariant yet; watchdog operations not explored'],
     'C06': ['the kernel delivers the byte stream faithfully (recv callee contract); interference from other asyncio tasks at await is not decided'],
 }
